@@ -216,6 +216,12 @@ let () =
             let (roots, _) = parse_roots (tokenize f0) [] in
             Buffer.add_string buf (if entriesOKroots roots then "1" else "0")
           with Bad m -> Buffer.add_string buf ("BADDUMP " ^ m))
+       | "shapehyp" ->
+         (* C13: the hypothesis of InlineShapes.parseInlines_shapes (lifted in ShapeHyp.v) on the implementation's pre-inline tree *)
+         (try
+            let (roots, _) = parse_roots (tokenize f0) [] in
+            Buffer.add_string buf (if shapeHypRoots roots then "1" else "0")
+          with Bad m -> Buffer.add_string buf ("BADDUMP " ^ m))
        | "leafok" ->
          (* C07: the leaf hypothesis of C07_render_safeW, evaluated on the implementation's tree *)
          (try
